@@ -134,9 +134,21 @@ pub fn big_main(kind: &str, n: usize) -> i32 {
             println!("PANIC {}", m);
             3
         }
-        Ok(p) => match compiles(&p, true) {
-            Ok(()) => {
-                println!("OK {}", p.len());
+        // the regex crate's own parser/compiler recurse over the nesting depth; give THEM a big stack
+        // so that a stack overflow in this child can only come from grex's build() above
+        Ok(p) => match std::thread::Builder::new()
+            .stack_size(3 << 30)
+            .spawn(move || {
+                let r = compiles(&p, true);
+                (p.len(), r)
+            })
+            .unwrap()
+            .join()
+            .map(|(len, r)| r.map(|_| len))
+            .unwrap_or_else(|_| Err("harness: compile thread died".into()))
+        {
+            Ok(len) => {
+                println!("OK {}", len);
                 0
             }
             Err(e) => {
@@ -263,7 +275,7 @@ fn run(ctx: &mut Ctx) {
     if ctx.failures.is_empty() {
         let sizes: Vec<(&str, usize)> = match ctx.tier {
             Tier::Quick => vec![("chain", 120), ("long2", 300), ("periodic", 120), ("many", 1500), ("many-i-x", 600), ("noanchors", 300), ("long-class-noend", 1400), ("long-class-noanchors-r", 1400)],
-            Tier::Thorough => vec![("chain", 120), ("chain", 1000), ("long2", 2000), ("periodic", 600), ("many", 5000), ("many-i-x", 3000), ("noanchors", 2000), ("long-class-noend", 1400), ("long-class-noend", 4000), ("long-class-noanchors-r", 3000)],
+            Tier::Thorough => vec![("chain", 120), ("chain", 1000), ("chain", 5000), ("long2", 2000), ("periodic", 600), ("many", 5000), ("many-i-x", 3000), ("noanchors", 2000), ("long-class-noend", 1400), ("long-class-noend", 4000), ("long-class-noanchors-r", 3000)],
         };
         let timeout = Duration::from_secs(ctx.tier.pick(60, 600));
         let results: Vec<(Stats, Result<(), String>, (&str, usize))> = std::thread::scope(|s| {
